@@ -37,6 +37,11 @@ def rand_index(rng, labs, kind, mode, stats, allow_slice=True):
     if ch == 'scalar':
         return {'s': rng.choice(labs)} if n else {'s': absent}
     if ch == 'absent':
+        if rng.random() < 0.25:
+            # an absent label of ANOTHER TYPE than the axis' labels (a number on a str axis, a str on a numeric axis)
+            absent = rng.choice([1, 2.5]) if kind == 'O' else 'zz'
+            stats['absent_label_type']['other type'] += 1
+            if rng.random() < 0.6: return {'l': [absent] * rng.randint(1, 2), 'as': rng.choice(['list', 'array'])}   # a list of that type only
         if rng.random() < 0.5 or n == 0: return {'s': absent}
         return {'l': [rng.choice(labs), absent] if rng.random() < 0.5 else [absent, rng.choice(labs)]}
     if ch == 'list':
